@@ -407,22 +407,22 @@ func (m *mon) write(g genMsg) ([]byte, bool) {
 }
 
 // roundTrip checks write-then-read of one message; it returns the honest frame.
-func (m *mon) roundTrip(g genMsg) ([]byte, bool) {
+func (m *mon) roundTrip(g genMsg) ([]byte, mt.Message, bool) {
 	r := m.r
 	frame, ok := m.write(g)
 	r.Eval(1)
 	if !ok {
-		return nil, false
+		return nil, nil, false
 	}
 	if len(frame) < hdrLen {
 		m.violationOnce("frame-shorter-than-header:"+g.kind, fmt.Sprintf("%d bytes", len(frame)), kit.Hex(frame))
-		return nil, false
+		return nil, nil, false
 	}
 	payload := frame[hdrLen:]
 	// the checker's reading of the header the node wrote
 	if binary.LittleEndian.Uint32(frame[0:]) != testMagic || binary.LittleEndian.Uint32(frame[16:]) != uint32(len(payload)) || cmdField(g.kind) != cmdOf(frame) {
 		m.violationOnce("written-header-inconsistent:"+g.kind, "magic / command / length written by WriteMessage do not describe the frame", kit.Hex(clip(frame, 4096)))
-		return nil, false
+		return nil, nil, false
 	}
 	if c := refChecksum(payload); bytes.Equal(c[:], frame[20:24]) {
 		r.Count("checksum_is_sha256d", 1)
@@ -432,26 +432,62 @@ func (m *mon) roundTrip(g genMsg) ([]byte, bool) {
 	}
 	msg, n, err, pan := m.read(frame)
 	if pan {
-		return nil, false
+		return nil, nil, false
 	}
 	if err != nil {
 		m.violationOnce("honest-frame-rejected:"+g.kind, fmt.Sprintf("%d-byte payload: %v", len(payload), err), kit.Hex(clip(frame, 4096)))
-		return nil, false
+		return nil, nil, false
 	}
 	if int(n) != len(payload) {
 		m.violationOnce("payload-size-misreported:"+g.kind, fmt.Sprintf("ReadMessage reported %d, payload has %d bytes", n, len(payload)), kit.Hex(clip(frame, 4096)))
-		return nil, false
+		return nil, nil, false
 	}
 	if msg.CmdType() != g.kind {
 		m.violationOnce("roundtrip-kind-changed:"+g.kind, "read back as "+msg.CmdType(), kit.Hex(clip(frame, 4096)))
-		return nil, false
+		return nil, nil, false
 	}
 	if d := g.diff(msg); d != "" {
 		m.violationOnce("roundtrip-message-changed:"+g.kind, d, kit.Hex(clip(frame, 4096)))
-		return nil, false
+		return nil, nil, false
 	}
 	r.Count("roundtrip_"+g.kind, 1)
-	return frame, true
+	return frame, msg, true
+}
+
+// sent is an honest frame together with the generator record that knows what was written.
+type sent struct {
+	frame []byte
+	g     genMsg
+}
+
+// kept is a decoded message the caller still holds while further frames are read.
+type kept struct {
+	g     genMsg
+	msg   mt.Message
+	frame []byte
+}
+
+// retained applies the retention oracle: a message ReadMessage handed to the caller must still be
+// the message that was written after any number of later ReadMessage calls (accepted or rejected
+// frames alike) - the caller owns what it was given.
+func (m *mon) retained(ks []kept, after string) (all bool) {
+	all = true
+	for _, k := range ks {
+		m.r.Eval(1)
+		if d := k.g.diff(k.msg); d != "" {
+			m.violationOnce("retained-message-changed:"+k.g.kind, fmt.Sprintf("a %s message that compared equal right after ReadMessage differs after %s: %s", k.g.kind, after, d), kit.Hex(clip(k.frame, 4096)))
+			all = false
+			continue
+		}
+		sink := common.NewZeroCopySink(nil)
+		if err := mt.WriteMessage(sink, k.msg); err != nil || !bytes.Equal(sink.Bytes(), k.frame) {
+			m.violationOnce("retained-message-changed:"+k.g.kind, fmt.Sprintf("a %s message re-encodes differently after %s (err=%v)", k.g.kind, after, err), kit.Hex(clip(k.frame, 4096)))
+			all = false
+			continue
+		}
+		m.r.Count("retained_unchanged", 1)
+	}
+	return all
 }
 
 func cmdOf(frame []byte) [12]byte {
@@ -754,7 +790,7 @@ func TestC05(t *testing.T) {
 	}
 	r := kit.Start(t, "C05", "exploration")
 	defer r.Finish()
-	r.Rule("all 16 message kinds with boundary-biased field values: WriteMessage→ReadMessage equality (field-wise), stream of several frames; from every honest frame: single-byte corruptions (header: every byte × {+1, ^0x80, random} or all 255 values in thorough; payload: every byte if <=512 else sampled), truncations, length games, wrong magics; hand-built frames: unknown commands, payload at / above MAX_PAYLOAD_LEN; hostile payloads behind honest headers (mutations, count fields rewritten to boundary/huge values) and random streams decoded in a child process under ulimit -v; distinct = (kind, payload digest) or (kind, corruption class, demanded verdict, observed verdict) or (mutation label, outcome, panic site)")
+	r.Rule("all 16 message kinds with boundary-biased field values: WriteMessage→ReadMessage equality (field-wise); retention: decoded messages held by the caller are re-compared after later reads (the next messages, the corrupted frames, all remaining frames of 2-31-frame streams); from every honest frame: single-byte corruptions (header: every byte × {+1, ^0x80, random} or all 255 values in thorough; payload: every byte if <=512 else sampled), truncations, length games, wrong magics; hand-built frames: unknown commands, payload at / above MAX_PAYLOAD_LEN; hostile payloads behind honest headers (mutations, count fields rewritten to boundary/huge values) and random streams decoded in a child process under ulimit -v; distinct = (kind, payload digest) or (kind, corruption class, demanded verdict, observed verdict) or (mutation label, outcome, panic site)")
 	r.Assume("rejection is demanded exactly when the checker, looking at the corrupted frame alone, finds: magic != network magic, length > MAX_PAYLOAD_LEN, fewer payload bytes than announced, sha256d(payload)[:4] != header checksum, or a command field that is not one of the 16 NUL-padded command names; otherwise (e.g. ping↔pong) nothing is asserted")
 	r.Assume("a payload of exactly MAX_PAYLOAD_LEN bytes is within the limit (must be accepted); Addr / Inv messages are generated with at most MAX_ADDR_NODE_CNT / MAX_INV_BLK_CNT entries (longer lists are truncated by design)")
 	r.Assume(fmt.Sprintf("hostile streams are read with the address space limited to %d KiB; a process death is reported like a panic", c02.VLimitKB))
@@ -770,13 +806,18 @@ func TestC05(t *testing.T) {
 	// size limit first: a Version message whose payload is exactly MAX_PAYLOAD_LEN / one byte more
 	m.sizeLimit(r.Rand("size-limit"))
 
-	var frames [][]byte
+	var frames []sent
 	for _, kind := range kinds {
+		var hold []kept // the last few decoded messages of this kind, still held by the "caller"
 		for i := 0; i < perKind; i++ {
 			g := gen(rng, kind, m.pool)
-			frame, ok := m.roundTrip(g)
+			frame, decoded, ok := m.roundTrip(g)
 			if !ok {
 				continue
+			}
+			hold = append(hold, kept{g: g, msg: decoded, frame: frame})
+			if len(hold) > 4 {
+				hold = hold[1:]
 			}
 			payload := frame[hdrLen:]
 			d := c02.Dsha(payload)
@@ -785,12 +826,15 @@ func TestC05(t *testing.T) {
 				r.Sample(map[string]interface{}{"kind": kind, "frame": kit.Hex(clip(frame, 300))})
 			}
 			if len(frames) < 4000 {
-				frames = append(frames, frame)
+				frames = append(frames, sent{frame: frame, g: g})
 			}
 			heavy := len(payload) > 4096
 			if !heavy || i < fullCorrupt {
 				m.corruptFrame(rng, kind, frame, i < fullCorrupt, i < allValues, i < r.N(2, 12))
 			}
+			// everything read since (the newer messages, the corrupted frames) must not have touched
+			// the messages the caller still holds
+			m.retained(hold, "later reads of honest and corrupted frames")
 			// hostile payloads (child)
 			var pts []c02.Point
 			if i < nRewrite {
@@ -812,40 +856,51 @@ func TestC05(t *testing.T) {
 		r.Require("roundtrip_"+kind, perKind)
 	}
 
-	// several frames on one stream are read back one by one, consuming exactly their bytes
-	for i := 0; i < r.N(200, 3000) && len(frames) > 0; i++ {
-		k := 2 + rng.Intn(4)
+	// several frames on one stream: ALL frames are read first (the decoded messages are kept, as a
+	// link's receive loop does), only then every kept message is compared with what was written
+	nStreams := r.N(300, 3000)
+	for i := 0; i < nStreams && len(frames) > 0; i++ {
+		k := 2 + rng.Intn(5)
+		if i%4 == 0 {
+			k = 12 + rng.Intn(20)
+		}
 		var stream []byte
-		var want [][]byte
+		var want []sent
 		for j := 0; j < k; j++ {
 			f := frames[rng.Intn(len(frames))]
+			if i%3 == 1 && j > 0 {
+				// a run of one kind with variable-length byte fields, later frames no larger than earlier ones
+				for try := 0; try < 20 && (f.g.kind != want[0].g.kind || len(f.frame) > len(want[j-1].frame)); try++ {
+					f = frames[rng.Intn(len(frames))]
+				}
+			}
 			want = append(want, f)
-			stream = append(stream, f...)
+			stream = append(stream, f.frame...)
 		}
 		rd := bytes.NewReader(stream)
+		var got []kept
 		okAll := true
-		for j := 0; j < k && okAll; j++ {
+		for j := 0; j < k; j++ {
 			var msg mt.Message
 			var err error
-			if p := kit.Catch(func() { msg, _, err = mt.ReadMessage(rd) }); p != nil || err != nil {
+			if p := kit.Catch(func() { msg, _, err = mt.ReadMessage(rd) }); p != nil || err != nil || msg == nil {
 				m.violationOnce("stream-frame-rejected", fmt.Sprintf("frame %d of %d on one stream: err=%v panic=%v", j, k, err, p), kit.Hex(clip(stream, 8192)))
 				okAll = false
 				break
 			}
-			sink := common.NewZeroCopySink(nil)
-			if err := mt.WriteMessage(sink, msg); err != nil || !bytes.Equal(sink.Bytes(), want[j]) {
-				m.violationOnce("stream-frame-changed", fmt.Sprintf("frame %d of %d re-encodes differently (err=%v)", j, k, err), kit.Hex(clip(stream, 8192)))
-				okAll = false
-			}
+			got = append(got, kept{g: want[j].g, msg: msg, frame: want[j].frame})
 		}
 		if okAll {
+			same := m.retained(got, fmt.Sprintf("reading the remaining frames of a %d-frame stream", k))
 			if rd.Len() != 0 {
 				m.violationOnce("stream-not-consumed-exactly", fmt.Sprintf("%d bytes left after %d frames", rd.Len(), k), kit.Hex(clip(stream, 8192)))
 			} else if _, _, err := mt.ReadMessage(rd); err == nil {
 				m.violationOnce("stream-read-past-end", "a message was returned from an exhausted stream", nil)
-			} else {
+			} else if same {
 				r.Count("streams_ok", 1)
+				r.Count("stream_frames_retained", k)
 			}
+			r.Distinct("stream", k, want[0].g.kind, want[k-1].g.kind, len(stream))
 		}
 		r.Eval(1)
 	}
@@ -910,7 +965,8 @@ func TestC05(t *testing.T) {
 	r.Require("rejected_unknown-command", 1000)
 	r.Require("rejected_truncated-header", 1000)
 	r.Require("undemanded_accepted", 1)
-	r.Require("streams_ok", r.N(200, 3000))
+	r.Require("streams_ok", nStreams)
+	r.Require("retained_unchanged", r.N(10000, 200000))
 	r.Require("at_limit_accepted", 1)
 	r.Require("over_limit_rejected", 1)
 	r.Require("hostile_decodes", r.N(30000, 700000))
